@@ -1,21 +1,42 @@
 #!/bin/bash
 # Must-fail corpus: applies each seeded change (seeded/<prop>_<n>/patch.diff) to a scratch worktree of /repo HEAD and runs the
 # check of the property it breaks against that worktree. Every change must make its check exit 1 with a VIOLATION line.
-# usage: selftest.sh [name ...]   (default: all)    Output: one line per change; exit 0 iff all were detected.
+#
+# usage: selftest.sh [-full] [-P n] [name ...]   (default: all changes, fast mode, 4 at a time)
+#   fast mode (default): only the obligations of the functions whose SSA (own body or inlined callees) differs from /repo HEAD
+#                        are discharged (govc hashes / govc check -only). Verification is modular, so the obligations of every
+#                        other function are the ones that already pass on the unchanged tree.
+#   -full              : the complete check of the property, exactly as registered in MANIFEST.json, against the changed tree.
+# Output: one line per change; exit 0 iff all were detected.
 export GOFLAGS=-mod=mod GOPROXY=off GOSUMDB=off GOTOOLCHAIN=local
 cd /verif
+full=0; par=4
+while [ $# -gt 0 ]; do case "$1" in -full) full=1; shift;; -P) par=$2; shift 2;; *) break;; esac; done
 names="$@"; [ -z "$names" ] && names=$(ls seeded | grep -E '^C[0-9]+_[0-9]+$')
-rc=0
-for n in $names; do
-  prop=${n%%_*}
+mkdir -p /root/scratch
+base=/root/scratch/selftest.base.$$
+bin/govc hashes > $base || exit 2
+one() {
+  n=$1; prop=${n%%_*}
   wt=/root/scratch/selftest.$n
   rm -rf $wt; git -C /repo worktree prune
-  git -C /repo worktree add --detach $wt HEAD -q || { echo "$n worktree-failed"; rc=2; continue; }
-  if ! git -C $wt apply /verif/seeded/$n/patch.diff 2>/dev/null; then echo "$n patch-does-not-apply"; rc=2; git -C /repo worktree remove --force $wt; continue; fi
-  out=$(bin/govc check --property $prop --repo $wt --out $wt/_verif_out 2>&1); st=$?
+  git -C /repo worktree add --detach $wt HEAD -q || { echo "$n worktree-failed"; return; }
+  if ! git -C $wt apply /verif/seeded/$n/patch.diff 2>/dev/null; then echo "$n patch-does-not-apply"; git -C /repo worktree remove --force $wt; return; fi
+  only=""
+  if [ $full -eq 0 ]; then
+    changed=$(bin/govc hashes -repo $wt | sort | comm -13 <(sort $base) - | cut -d' ' -f2- | paste -sd, -)
+    if [ -z "$changed" ]; then echo "$n MISSED by $prop (no function body differs in SSA)"; git -C /repo worktree remove --force $wt; return; fi
+    only="-only $changed"
+  fi
+  out=$(bin/govc check --property $prop --repo $wt --out $wt/_verif_out -j $jobs -timeout ${SELFTEST_TIMEOUT:-15s} $only 2>&1); st=$?
   v=$(echo "$out" | grep -c '^VIOLATION')
   first=$(echo "$out" | grep '^VIOLATION' | head -1 | sed 's/.*obligation=//' | cut -c1-90)
-  if [ $st -eq 1 ] && [ $v -gt 0 ]; then echo "$n DETECTED by $prop ($v obligations; first: $first)"; else echo "$n MISSED by $prop (exit $st) $(echo "$out" | tail -1 | cut -c1-120)"; rc=1; fi
+  if [ $st -eq 1 ] && [ $v -gt 0 ]; then echo "$n DETECTED by $prop ($v obligations; first: $first)"; else echo "$n MISSED by $prop (exit $st; changed: $changed) $(echo "$out" | tail -1 | cut -c1-120)"; fi
   git -C /repo worktree remove --force $wt
-done
+}
+export -f one; export full base
+if [ $full -eq 1 ]; then export jobs=14; par=1; else export jobs=$((16 / par)); fi
+echo $names | tr ' ' '\n' | xargs -P $par -I{} bash -c 'one {}' | tee /root/scratch/selftest.out.$$
+rc=0; grep -q "MISSED\|failed\|does-not-apply" /root/scratch/selftest.out.$$ && rc=1
+rm -f $base /root/scratch/selftest.out.$$
 exit $rc
